@@ -1,6 +1,7 @@
 mod cli;
 mod rt;
 mod search;
+mod srv;
 mod checks;
 
 use std::path::Path;
